@@ -385,7 +385,8 @@ def run_case(case, env):
             continue
         step = {"op": "GEN", "sources": argv_srcs, "O": None, "no_dyn": False, "no_lower": case["no_lower"],
                 "hash_seed": sc["hash_seed"], "dirent_seed": sc["dirent_seed"], "env_pad": 0,
-                "timeout_ms": 6000}   # a normal invocation takes ~30 ms; CPU-bound loops make no system call, so the time bound decides
+                "cpu_ms": 4000, "timeout_ms": 120000}   # a normal invocation uses ~30 ms of CPU; a loop that makes no system call is
+                # stopped by the CPU-time bound of the tracee (RLIMIT_CPU) - not by wall-clock time, which depends on the load
         old_cwd = sb.cwd
         sb.cwd = posixpath.normpath(posixpath.join(proj, cwd_rel))
         try:
@@ -503,7 +504,7 @@ def run_case(case, env):
     fancy = case.get("fancy")
     if fancy:
         fl = "--no-lowercase-file-name" if case["no_lower"] else None
-        step = {"op": "GEN", "sources": [fancy["source"]], "O": None, "no_dyn": False, "no_lower": case["no_lower"], "hash_seed": 7, "dirent_seed": 7, "env_pad": 0, "timeout_ms": 6000}
+        step = {"op": "GEN", "sources": [fancy["source"]], "O": None, "no_dyn": False, "no_lower": case["no_lower"], "hash_seed": 7, "dirent_seed": 7, "env_pad": 0, "cpu_ms": 4000, "timeout_ms": 120000}
         r1 = sb.run(step)
         stats["runs"] += 1
         base_cls = None
@@ -546,7 +547,7 @@ def run_case(case, env):
         groups = [list(case["sources"])]
         for gi, group in enumerate(groups):
             step = {"op": "GEN", "sources": group, "O": None, "no_dyn": False, "no_lower": case["no_lower"],
-                    "hash_seed": 17 + gi, "dirent_seed": 19 + gi, "env_pad": 0, "timeout_ms": 6000}
+                    "hash_seed": 17 + gi, "dirent_seed": 19 + gi, "env_pad": 0, "cpu_ms": 4000, "timeout_ms": 120000}
             before = sb.snap()
             r3 = sb.run(step)
             stats["runs"] += 1
